@@ -207,8 +207,7 @@ impl ReadZone {
             let guard = rrsets.iter();
             guard
                 .iter()
-                .next()
-                .and_then(|(_rtype, rrset)| rrset.get(self.version))
+                .find_map(|(_rtype, rrset)| rrset.get(self.version))
                 .map(|rrset| NodeAnswer::data(rrset.clone()))
                 .unwrap_or_else(NodeAnswer::no_data)
         } else {
